@@ -1,29 +1,382 @@
-from vf.core import Ob
-import props.C09 as c09
+"""C08: equivalent spellings of a Touchstone / NPD file load to the same network data.
+Engine: the real vnadata_load (Touchstone 1 / 2 and NPD parsers) executed by the whole-flow symbolic interpreter vf/irx.py on concrete
+file skeletons (every byte of syntax concrete) whose data numbers are symbols: a number token stands for a z3 term, strtod returns that
+term.  For each spelling z3 decides, for all values, that the loaded object equals the ground truth the file was generated from - type,
+dimensions, frequencies, impedances and every cell; spellings of the same ground truth are therefore equal to each other.
 
-META = dict(
-    level='proof',
-    bounds='Touchstone option-line / keyword spellings: a concrete prefix and suffix around ONE symbolic byte; the loader is run on both spellings '
-           '(lower vs upper case letter; "!" + any byte + newline vs newline; blank + tab/CR/blank vs blank) and the two results are compared',
-    outside='unit scaling and RI/MA/DB numeric equivalence (rounding, cexp); Full/Upper/Lower, 12_21/21_12, V1 vs V2 framing, NPD header order '
-            '(token-level design C08.b/c not built); more than one differing byte',
-    assumptions=c09.META['assumptions'],
-    explanation='bounded symbolic differential check of the real Touchstone loader on two spellings of the same text',
-)
+Spellings (generated here from the format documents, not by the library's saver):
+  unit         Hz / kHz / MHz / GHz with correspondingly scaled frequency numbers
+  coordinates  RI / MA / DB of the same complex values (cos / sin / exp / uninterpreted: the claim needs only that the loader applies
+               the documented polar formula to the right tokens)
+  storage      Touchstone 2 Full / Upper / Lower of a symmetric matrix; 12_21 / 21_12 two-port order
+  lexical      letter case of option line and keywords, order of option-line fields, comments, blank lines, tabs, line breaks inside a
+               record, [Reference] values on the keyword line or the next
+  framing      Touchstone 1 vs Touchstone 2 of the same data
+  NPD          order of the '#:' header lines, letter case of the parameter name, comment lines
+"""
+import os, re, json, time, itertools
+from fractions import Fraction
+from vf import core
+
+FREQS = [Fraction(10 ** 9), Fraction(5 * 10 ** 9, 2)]
+UNITS = {'Hz': 1, 'kHz': 10 ** 3, 'MHz': 10 ** 6, 'GHz': 10 ** 9}
+PI = 3.14159265358979323846264338327950288419716939937508
+LOG10 = 2.302585092994045684017991454684364207601101488628772976033
 
 
-def obligations(tier):
-    obs = []
-    cases = [(0, '# ', ''), (0, '# H', 'z'), (0, '# hz ', ' ri'), (0, '# hz s r', 'i r 50\\n'), (0, '[Versio', 'n] 2.0\\n# hz\\n'),
-             (1, '# hz s ri r 50', ''), (1, '[Version] 2.0', '# hz\\n'), (2, '# hz', 's ri'), (2, '#', 'hz')]
-    if tier != 'quick':
-        cases += [(0, '# hz s ', 'a r 50\\n'), (0, '# hz s d', 'b\\n'), (0, '# hz ', ' ma r 75\\n'), (1, '# hz s ri r 50\\n', ''), (2, '# hz s ri r', '50\\n')]
-    for mode, pre, suf in cases:
-        nm = 'mode%d-%s-%s' % (mode, ''.join(c if c.isalnum() else '_' for c in pre), ''.join(c if c.isalnum() else '_' for c in suf))
-        obs.append(Ob('C08.a/' + nm, 'C09_touchstone.c', engine='L',
-                      defs={'C08': 1, 'MODE': mode, 'PREFIX': '"%s"' % pre, 'SUFFIX': '"%s"' % suf},
-                      unwind=len(pre) + len(suf) + 16, ovr=c09.OVR, leak=True, timeout=900 if tier == 'quick' else 3000,
-                      optional_witnesses=['both accepted'], functions=['_vnadata_load_touchstone', 'next_token', 'next_char'],
-                      bounds='%r + one symbolic byte (mode %d) + %r' % (pre, mode, suf), stubs=['getc buffer', 'strtod/strtol', 'vasprintf', 'ctype'],
-                      what='two equivalent spellings around one symbolic byte load identically'))
-    return obs
+def fnum(x):
+    """a frequency literal"""
+    x = Fraction(x)
+    if x.denominator == 1: return str(x.numerator)
+    return repr(float(x))
+
+
+class Gen:
+    """ground truth + token allocation for one interpreter"""
+    def __init__(s, it, n, sym=False, coord='RI'):
+        import z3
+        from irsym import Rat
+        from props.calflow import C, csym
+        s.it = it; s.n = n; s.k = 0; s.coord = coord
+        it.number_symbols = {}
+        s.G = []
+        for fi in range(len(FREQS)):
+            m = [[None] * n for _ in range(n)]
+            for r in range(n):
+                for c in range(n):
+                    if sym and c < r: m[r][c] = m[c][r]; continue
+                    if coord == 'RI': m[r][c] = ('RI', Rat(z3.Real('g%d_%d%dr' % (fi, r, c))), Rat(z3.Real('g%d_%d%di' % (fi, r, c))))
+                    else: m[r][c] = ('PO', Rat(z3.Real('g%d_%d%dm' % (fi, r, c))), Rat(z3.Real('g%d_%d%da' % (fi, r, c))))   # magnitude-ish primitive, angle in degrees
+            s.G.append(m)
+
+    def tok(s, rat):
+        s.k += 1
+        t = '8.%06d' % s.k
+        s.it.number_symbols[t.encode()] = rat
+        return t
+
+    def _uf(s, name, x):
+        import irx
+        return irx._uf(s.it, name, [x])
+
+    def value(s, cell):
+        """ground-truth complex value of a cell as C"""
+        from irsym import Rat
+        from props.calflow import C
+        kind, a, b = cell
+        if kind == 'RI': return C(a, b)
+        if s.coord == 'MA': mag = a
+        else: mag = s._uf('exp', Rat.const(LOG10) * a / Rat.const(20.0))          # a is the dB value
+        ang = Rat.const(PI / 180.0) * b
+        return C(mag * s._uf('cos', ang), mag * s._uf('sin', ang))
+
+    def pair(s, cell, coord):
+        """two tokens spelling the cell in the given coordinates"""
+        from irsym import Rat
+        kind, a, b = cell
+        if coord == 'RI':
+            v = s.value(cell); return s.tok(v.re), s.tok(v.im)
+        assert kind == 'PO'
+        if coord == s.coord: return s.tok(a), s.tok(b)
+        if coord == 'MA':   # truth primitive is dB
+            return s.tok(s._uf('exp', Rat.const(LOG10) * a / Rat.const(20.0))), s.tok(b)
+        raise ValueError('cannot spell a magnitude primitive in dB without log')
+
+
+def option_line(unit='GHz', typ='S', coord='RI', r='50', order=(0, 1, 2, 3), case=None):
+    parts = [unit, typ, coord, 'R ' + r]
+    txt = '# ' + ' '.join(parts[i] for i in order)
+    if case == 'lower': txt = txt.lower()
+    elif case == 'upper': txt = txt.upper()
+    elif case == 'mixed': txt = ''.join(ch.upper() if i % 2 else ch.lower() for i, ch in enumerate(txt))
+    return txt
+
+
+def ts1_text(g, unit='GHz', coord='RI', opt_kw=None, comments=False, blank=False, tabs=False, wrap=None, no_option=False):
+    n = g.n
+    sep = '\t' if tabs else ' '
+    L = []
+    if comments: L += ['! generated spelling', '!', '!  second comment line with # and [brackets]']
+    if blank: L += ['', '   ']
+    if not no_option: L.append(option_line(unit=unit, coord=coord, **(opt_kw or {})) + (' ! trailing comment' if comments else ''))
+    if blank: L.append('')
+    for fi, f in enumerate(FREQS):
+        cells = [(r, c) for r in range(n) for c in range(n)]
+        if n == 2: cells = [(0, 0), (1, 0), (0, 1), (1, 1)]
+        toks = []
+        for (r, c) in cells: toks += list(g.pair(g.G[fi][r][c], coord))
+        ftok = fnum(f / UNITS[unit])
+        if n <= 2 and wrap is None: L.append(sep.join([ftok] + toks))
+        else:
+            w = wrap or n          # pairs per line (the specification: one matrix row per line, at most 4 pairs)
+            first = True
+            for k in range(0, len(toks), 2 * w):
+                L.append(sep.join(([ftok] if first else ['   ']) + toks[k:k + 2 * w]) + (' ! row' if comments and first else ''))
+                first = False
+        if blank and fi == 0: L.append('')
+    if comments: L.append('! end of data')
+    return '\n'.join(L) + '\n'
+
+
+def ts2_text(g, unit='GHz', coord='RI', fmt='Full', order='12_21', kwcase=None, ref_inline=True, comments=False, opt_kw=None, ref=None, wrap=None, r='50'):
+    n = g.n
+    def kw(s_):
+        if kwcase == 'lower': return s_.lower()
+        if kwcase == 'upper': return s_.upper()
+        return s_
+    L = []
+    if comments: L.append('! Touchstone 2 spelling')
+    L.append(kw('[Version]') + ' 2.0')
+    L.append(option_line(unit=unit, coord=coord, r=r, **(opt_kw or {})))
+    L.append(kw('[Number of Ports]') + ' %d' % n)
+    if n == 2: L.append(kw('[Two-Port Data Order]') + ' ' + order)
+    L.append(kw('[Number of Frequencies]') + ' %d' % len(FREQS))
+    if ref is not None:
+        if ref_inline: L.append(kw('[Reference]') + ' ' + ' '.join(ref))
+        else: L += [kw('[Reference]')] + [' '.join(ref[:2])] + ([' '.join(ref[2:])] if len(ref) > 2 else [])
+    if fmt != 'Full' or kwcase: L.append(kw('[Matrix Format]') + ' ' + fmt)
+    if comments: L.append('! data follow')
+    L.append(kw('[Network Data]'))
+    for fi, f in enumerate(FREQS):
+        if fmt == 'Full': cells = [(r_, c) for r_ in range(n) for c in range(n)]
+        elif fmt == 'Upper': cells = [(r_, c) for r_ in range(n) for c in range(r_, n)]
+        else: cells = [(r_, c) for r_ in range(n) for c in range(0, r_ + 1)]
+        if n == 2 and fmt == 'Full' and order == '21_12': cells = [(0, 0), (1, 0), (0, 1), (1, 1)]
+        toks = []
+        for (r_, c) in cells: toks += list(g.pair(g.G[fi][r_][c], coord))
+        ftok = fnum(f / UNITS[unit])
+        if wrap:
+            first = True
+            for k in range(0, len(toks), 2 * wrap):
+                L.append(' '.join(([ftok] if first else []) + toks[k:k + 2 * wrap])); first = False
+        else: L.append(' '.join([ftok] + toks))
+    L.append(kw('[End]'))
+    return '\n'.join(L) + '\n'
+
+
+def npd_text(g, order=None, pcase='Sri', comments=False, z0=None):
+    n = g.n
+    hdr = {'version': '#:version 1.0', 'ports': '#:ports %d' % n, 'frequencies': '#:frequencies %d' % len(FREQS), 'parameters': '#:parameters ' + pcase,
+           'z0': '#:z0 ' + ' '.join('%s %sj' % (a, b) for a, b in (z0 or [('50', '+0')] * n)), 'fprecision': '#:fprecision 7', 'dprecision': '#:dprecision 6'}
+    order = order or ['version', 'ports', 'frequencies', 'parameters', 'z0', 'fprecision', 'dprecision']
+    L = ['#NPD'] + [hdr[k] for k in order] + ['#']
+    if comments: L += ['# field 1: frequency', '#', '# arbitrary comment: #:ports 9 is not a header here? no - plain comments start with "# "']
+    for fi, f in enumerate(FREQS):
+        toks = []
+        for r in range(n):
+            for c in range(n): toks += list(g.pair(g.G[fi][r][c], 'RI'))
+        L.append(' '.join([fnum(f)] + toks))
+        if comments and fi == 0: L.append('# between records')
+    return '\n'.join(L) + '\n'
+
+
+def spellings(tier):
+    """(id, ports, file name, builder(g) -> text, generator kwargs)"""
+    S = []
+    def add(i, n, fname, fn, ptype='S', **gk): S.append({'id': i, 'ports': n, 'file': fname, 'build': fn, 'gk': gk, 'ptype': ptype})
+    for n in ((1, 2, 3) if tier == 'quick' else (1, 2, 3, 4)):
+        f1 = 'x.s%dp' % n
+        for u in UNITS:
+            add('ts1-%dp-unit-%s' % (n, u), n, f1, lambda g, u=u: ts1_text(g, unit=u))
+            add('ts2-%dp-unit-%s' % (n, u), n, 'x.ts', lambda g, u=u: ts2_text(g, unit=u))
+        for case in ('lower', 'upper', 'mixed'):
+            add('ts1-%dp-case-%s' % (n, case), n, f1, lambda g, case=case: ts1_text(g, opt_kw={'case': case}))
+        add('ts2-%dp-kwcase-lower' % n, n, 'x.ts', lambda g: ts2_text(g, kwcase='lower', opt_kw={'case': 'lower'}))
+        add('ts2-%dp-kwcase-upper' % n, n, 'x.ts', lambda g: ts2_text(g, kwcase='upper', opt_kw={'case': 'upper'}))
+        for k, od in enumerate(((3, 2, 1, 0), (1, 0, 3, 2), (2, 3, 0, 1))):
+            add('ts1-%dp-optorder-%d' % (n, k), n, f1, lambda g, od=od: ts1_text(g, opt_kw={'order': od}))
+        add('ts1-%dp-comments' % n, n, f1, lambda g: ts1_text(g, comments=True))
+        add('ts1-%dp-blank-tabs' % n, n, f1, lambda g: ts1_text(g, blank=True, tabs=True))
+        add('ts2-%dp-comments' % n, n, 'x.ts', lambda g: ts2_text(g, comments=True))
+        add('ts2-%dp-in-sNp-file' % n, n, f1, lambda g: ts2_text(g))                 # Touchstone 2 framing in a .sNp file
+        add('ts1-%dp-in-ts-file' % n, n, 'x.ts', lambda g: ts1_text(g)) if n <= 0 else None
+        add('ts2-%dp-reference-inline' % n, n, 'x.ts', lambda g, n=n: ts2_text(g, ref=['50'] * n))
+        add('ts2-%dp-reference-nextline' % n, n, 'x.ts', lambda g, n=n: ts2_text(g, ref=['50'] * n, ref_inline=False))
+        add('ts2-%dp-wrapped' % n, n, 'x.ts', lambda g: ts2_text(g, wrap=2))
+        for co in ('MA', 'DB'):
+            add('ts1-%dp-%s' % (n, co), n, f1, lambda g, co=co: ts1_text(g, coord=co), coord=co)
+            add('ts2-%dp-%s' % (n, co), n, 'x.ts', lambda g, co=co: ts2_text(g, coord=co), coord=co)
+            add('ts1-%dp-%s-as-RI' % (n, co), n, f1, lambda g: ts1_text(g, coord='RI'), coord=co)
+        add('ts1-%dp-DB-as-MA' % n, n, f1, lambda g: ts1_text(g, coord='MA'), coord='DB')
+        if n >= 2:
+            add('ts2-%dp-upper' % n, n, 'x.ts', lambda g: ts2_text(g, fmt='Upper'), sym=True)
+            add('ts2-%dp-lower' % n, n, 'x.ts', lambda g: ts2_text(g, fmt='Lower'), sym=True)
+            add('ts2-%dp-full-symmetric' % n, n, 'x.ts', lambda g: ts2_text(g, fmt='Full'), sym=True)
+        if n == 2:
+            add('ts2-2p-order-21_12', n, 'x.ts', lambda g: ts2_text(g, order='21_12'))
+            add('ts2-2p-order-12_21', n, 'x.ts', lambda g: ts2_text(g, order='12_21'))
+        base = ['version', 'ports', 'frequencies', 'parameters', 'z0', 'fprecision', 'dprecision']
+        perms = [base, ['version', 'frequencies', 'ports', 'z0', 'parameters', 'dprecision', 'fprecision'], ['version', 'parameters', 'ports', 'frequencies', 'z0', 'fprecision', 'dprecision'],
+                 ['version', 'ports', 'z0', 'frequencies', 'parameters', 'fprecision', 'dprecision'], ['version', 'dprecision', 'fprecision', 'ports', 'parameters', 'frequencies', 'z0']]
+        for k, od in enumerate(perms):
+            add('npd-%dp-header-order-%d' % (n, k), n, 'x.npd', lambda g, od=od: npd_text(g, order=od))
+        for pc in ('SRI', 'sri', 'S', 's', 'sRi'):
+            add('npd-%dp-parameter-%s' % (n, pc), n, 'x.npd', lambda g, pc=pc: npd_text(g, pcase=pc))
+        add('npd-%dp-comments' % n, n, 'x.npd', lambda g: npd_text(g, comments=True))
+        if n == 2:
+            for pt in ('T', 'U', 'H', 'G', 'A', 'B', 'Z', 'Y'):
+                for k, od in enumerate(perms):
+                    add('npd-2p-%s-header-order-%d' % (pt, k), n, 'x.npd', lambda g, od=od, pt=pt: npd_text(g, order=od, pcase=pt + 'ri'), ptype=pt)
+    return [x for x in S if x is not None]
+
+
+class Holder:
+    pass
+
+
+def run_once(mod, sp, choices, holder):
+    import z3, irsym
+    from irx import XInterp, NULL, sgn, Special
+    from irsym import Rat
+    from props.calflow import C
+    it = XInterp(mod); it.generic = True; it.choices = list(choices)
+    h = Holder(); h.it = it; holder['flow'] = h
+    res = {'queries': 0, 'unsat': 0, 'sat': [], 'unknown': []}
+    call = lambda n, a: it.call('@' + n, a)
+    icall = lambda n, a: sgn(call(n, a) & 0xffffffff, 32)
+    g = Gen(it, sp['ports'], **sp['gk'])
+    text = sp['build'](g)
+    res['text'] = text[:1500]
+    fname = sp['file'].encode()
+    it.fs[fname] = text.encode()
+    n = sp['ports']
+    def check(cond, q, detail=None):
+        res['queries'] += 1
+        if cond: res['unsat'] += 1
+        else: res['sat'].append({'q': q, 'detail': detail})
+        return cond
+    def prove(exprs, q):
+        ex = []
+        for e in exprs:
+            if isinstance(e, C): ex += [e.re, e.im]
+            else: ex.append(e)
+        if any(isinstance(e, Special) for e in ex): res['sat'].append({'q': q, 'detail': 'non-finite value'}); return False
+        st, mdl = irsym.check_zero(it, ex, timeout_ms=60000)
+        res['queries'] += 1
+        if st == 'unsat': res['unsat'] += 1; return True
+        if st == 'sat': res['sat'].append({'q': q, 'model': {d.name(): str(mdl[d]) for d in mdl.decls()}}); return False
+        res['unknown'].append({'q': q, 'why': str(mdl)}); return None
+    v = call('vnadata_alloc', [NULL, NULL])
+    it.set_errno(0)
+    rc = icall('vnadata_load', [v, it.static_str(fname)])
+    if not check(rc == 0, 'the spelling is accepted by vnadata_load', 'returned %d, errno %d, %s' % (rc, it.get_errno(), [m.decode() for c_, m in it.errors[-2:]])): return res
+    tcode = {'S': 1, 'T': 2, 'U': 3, 'Z': 4, 'Y': 5, 'H': 6, 'G': 7, 'A': 8, 'B': 9}[sp.get('ptype', 'S')]
+    check(icall('vnadata_get_type', [v]) == tcode, 'parameter type ' + sp.get('ptype', 'S'), icall('vnadata_get_type', [v]))
+    check((icall('vnadata_get_rows', [v]), icall('vnadata_get_columns', [v])) == (n, n), 'dimensions', (icall('vnadata_get_rows', [v]), icall('vnadata_get_columns', [v])))
+    if not check(icall('vnadata_get_frequencies', [v]) == len(FREQS), 'frequency count', icall('vnadata_get_frequencies', [v])): return res
+    prove([call('vnadata_get_frequency', [v, i]) - Rat(FREQS[i], Fraction(1)) for i in range(len(FREQS))], 'frequencies in Hz')
+    zz = [call('vnadata_get_z0', [v, i]) for i in range(n)]
+    prove([C(a, b) - C(Rat.const(50.0), Rat.const(0.0)) for a, b in zz], 'reference impedances')
+    for fi in range(len(FREQS)):
+        ex = []
+        for r in range(n):
+            for c in range(n):
+                w = call('vnadata_get_cell', [v, fi, r, c])
+                ex.append(C(w[0], w[1]) - g.value(g.G[fi][r][c]))
+        prove(ex, 'every cell equals the ground truth at frequency %d' % fi)
+    call('vnadata_free', [v])
+    check(not it.live_heap(), 'nothing stays allocated after vnadata_free', len(it.live_heap()))
+    return res
+
+
+def worker(mod, job):
+    import irx
+    from props.calflow import all_paths
+    sp = [x for x in spellings(job['tier']) if x['id'] == job['id']][0]
+    out = {'id': job['id'], 'paths': 0, 'queries': 0, 'unsat': 0, 'sat': [], 'unknown': [], 'fault': None}
+    try:
+        rs = all_paths(lambda ch, h: run_once(mod, sp, ch, h), max_paths=16)
+    except (irx.MemFault, irx.LibAbort) as e:
+        out['fault'] = '%s: %s' % (type(e).__name__, e); return out
+    for r in rs:
+        out['paths'] += 1; out['queries'] += r['queries']; out['unsat'] += r['unsat']; out['sat'] += r['sat']; out['unknown'] += r['unknown']
+    out['text'] = rs[0].get('text') if rs else None
+    return out
+
+
+def native_program(sp, mod_text):
+    """the spelling with numeric values in place of the symbols, loaded natively and compared with the values it was generated from"""
+    import random, math, cmath
+    rnd = random.Random(7)
+    # numeric instance: re-generate the text with a fake interpreter that hands out numeric tokens
+    class FakeIt: pass
+    vals = {}
+    class NGen(Gen):
+        def __init__(s, n, sym=False, coord='RI'):
+            s.n = n; s.coord = coord; s.k = 0
+            s.G = []
+            for fi in range(len(FREQS)):
+                m = [[None] * n for _ in range(n)]
+                for r in range(n):
+                    for c in range(n):
+                        if sym and c < r: m[r][c] = m[c][r]; continue
+                        if coord == 'RI': m[r][c] = ('RI', rnd.randint(-90, 90) / 64.0, rnd.randint(-90, 90) / 64.0)
+                        elif coord == 'MA': m[r][c] = ('PO', rnd.randint(1, 90) / 64.0, float(rnd.randint(-170, 170)))
+                        else: m[r][c] = ('PO', float(rnd.randint(-30, 3)), float(rnd.randint(-170, 170)))
+                s.G.append(m)
+        def tok(s, x): return repr(float(x))
+        def value(s, cell):
+            kind, a, b = cell
+            if kind == 'RI': return complex(a, b)
+            mag = a if s.coord == 'MA' else 10 ** (a / 20.0)
+            return cmath.rect(mag, math.radians(b))
+        def pair(s, cell, coord):
+            kind, a, b = cell
+            if coord == 'RI':
+                v = s.value(cell); return repr(v.real), repr(v.imag)
+            if coord == s.coord: return repr(a), repr(b)
+            if coord == 'MA': return repr(10 ** (a / 20.0)), repr(b)
+            raise ValueError
+    g = NGen(sp['ports'], **sp['gk'])
+    text = sp['build'](g)
+    n = sp['ports']
+    L = ['#include <stdio.h>', '#include <math.h>', '#include <complex.h>', '#include <vnadata.h>',
+         'static void errfn(const char *m, void *a, vnaerr_category_t c) { fprintf(stderr, "libvna: %s\\n", m); }',
+         'static const double complex truth[%d] = {%s};' % (len(FREQS) * n * n, ', '.join('%r + %r * I' % (g.value(g.G[fi][r][c]).real, g.value(g.G[fi][r][c]).imag) for fi in range(len(FREQS)) for r in range(n) for c in range(n))),
+         'static const double fr[%d] = {%s};' % (len(FREQS), ', '.join(repr(float(f)) for f in FREQS)),
+         'int main(void) { int bad = 0; vnadata_t *v = vnadata_alloc(errfn, NULL);',
+         '  if (vnadata_load(v, "vf_%s") != 0) { fprintf(stderr, "VF-ASSERT-FAIL: an equivalent spelling is rejected\\n"); vnadata_free(v); return 1; }' % sp['file'],
+         '  if (vnadata_get_type(v) != VPT_%s || vnadata_get_rows(v) != %d || vnadata_get_columns(v) != %d || vnadata_get_frequencies(v) != %d) { fprintf(stderr, "VF-ASSERT-FAIL: type / dimensions\\n"); vnadata_free(v); return 1; }' % (sp.get('ptype', 'S'), n, n, len(FREQS)),
+         '  for (int f = 0; f < %d; ++f) { if (fabs(vnadata_get_frequency(v, f) - fr[f]) > 1e-3) { fprintf(stderr, "VF-ASSERT-FAIL: frequency %%d is %%g\\n", f, vnadata_get_frequency(v, f)); bad = 1; }' % len(FREQS),
+         '    for (int r = 0; r < %d; ++r) for (int c = 0; c < %d; ++c) { double complex a = vnadata_get_cell(v, f, r, c), b = truth[(f * %d + r) * %d + c];' % (n, n, n, n),
+         '      if (!(cabs(a - b) <= 1e-9 * (1 + cabs(b)))) { fprintf(stderr, "VF-ASSERT-FAIL: cell (%d,%d,%d) loads as %g%+gi, generated from %g%+gi\\n", f, r, c, creal(a), cimag(a), creal(b), cimag(b)); bad = 1; } } }',
+         '  for (int p = 0; p < %d; ++p) if (cabs(vnadata_get_z0(v, p) - 50.0) > 1e-9) { fprintf(stderr, "VF-ASSERT-FAIL: z0\\n"); bad = 1; }' % n,
+         '  vnadata_free(v); return bad; }']
+    return '\n'.join(L) + '\n', {'vf_' + sp['file']: text.encode()}
+
+
+def run(tier, only=None):
+    from props import calrun
+    t0 = time.time()
+    ctx = core.Ctx()
+    try:
+        ml = calrun.build_whole_ir(ctx); calrun.load_module(ml)
+        sps = [x for x in spellings(tier) if not only or only in x['id']]
+        jobs = [{'id': x['id'], 'tier': tier} for x in sps]
+        results = calrun.run_jobs(worker, jobs, par=max(1, core.NCPU - 1), timeout=300 if tier == 'quick' else 1200, mem_gb=8)
+        native = calrun.Native(ctx); viol = []
+        for r, sp in zip(results, sps):
+            if r.get('error'): continue
+            whats = []
+            if r.get('fault'): whats.append('memory fault / abort in the symbolic run of the real code: ' + r['fault'])
+            for x in r.get('sat', []): whats.append('%s %s' % (x.get('q'), json.dumps({k: v for k, v in x.items() if k != 'q'}, default=str)[:300]))
+            if not whats: continue
+            rd = os.path.join(core.VERIF, 'evidence', 'replay', 'C08_' + re.sub(r'\W+', '_', r['id']))
+            src, files = native_program(sp, None)
+            ok, how, outp = native.run_c(src, rd, extra_files=files)
+            json.dump({'property': 'C08', 'spelling': r['id'], 'what': whats, 'native': how, 'text': r.get('text')}, open(os.path.join(rd, 'cex.json'), 'w'), indent=1, default=str)
+            viol.append({'id': r['id'], 'what': ' ;; '.join(whats), 'replay': rd, 'confirmed': ok, 'how': how})
+        meta = {'checker_cmd': 'clang-14 -O0 -emit-llvm (whole library) | llvm-link | opt -mem2reg | vf/irx.py (symbolic load of generated spellings over an in-memory file system) | z3',
+                'trusted_base': ['clang-14 front end', 'vf/irparse.py, irsym.py, irx.py (stdio / strtod model, number tokens standing for z3 terms)', 'z3',
+                                 'the spelling generators of props/C08.py written from the Touchstone 1.1 / 2.0 specifications and vnadata_save(3)', 'clang ASan/UBSan native build for replay'],
+                'functions': ['vnadata_load', '_vnadata_load_touchstone', '_vnadata_load_npd', '_vnadata_parse_filename', 'vnadata_set_format (parse_format)', '...'],
+                'bounds': '%d spellings of S-parameter data with 1..%d ports and 2 frequencies (1 GHz, 2.5 GHz), reference 50 ohm; every data number a free real symbol (RI) or a free magnitude / dB / angle symbol (MA, DB); '
+                          'all syntax bytes concrete' % (len(jobs), 3 if tier == 'quick' else 4),
+                'outside': 'parameter types other than S, impedances other than 50 ohm, more frequencies / ports, digits of numbers (a token is its exact value), noise-parameter blocks, spellings not generated here',
+                'explanation': __doc__,
+                'assumptions': ['exact real arithmetic; cos / sin / exp uninterpreted'],
+                'samples': [{'id': r.get('id'), 'paths': r.get('paths'), 'queries': r.get('queries'), 'time_s': r.get('time')} for r in results[:30]]}
+        rc, ev = calrun.report('C08', tier, results, viol, meta, t0)
+        return rc
+    finally:
+        ctx.close()
